@@ -330,12 +330,19 @@ def _prelude_response_subscriber(event):
 
 
 # ------------------------------------------------------------------ declaring one statement
-def declare(config, st):
-    """Issue the directive(s) of one statement on [config]."""
+PREFIX = 'pfx'
+
+
+def declare(config, st, in_prefix=False):
+    """Issue the directive(s) of one statement on [config].  A route statement with 'prefix' stands for the pattern
+    /pfx<pattern>: inside an include made with route_prefix='pfx' it is declared with the bare pattern, elsewhere
+    with the prefixed pattern written out."""
     k = st['k']
     sid = st['id']
     if k == 'route':
         kw = {}
+        if st.get('prefix') and not in_prefix:
+            st = dict(st, pattern='/' + PREFIX + st['pattern'])
         if st.get('factory'):
             kw['factory'] = CtxB
         if st.get('method'):
@@ -356,6 +363,12 @@ def declare(config, st):
             kw['vp'] = st['vp']
         if st.get('vq') is not None:
             kw['vq'] = st['vq']
+        if st.get('xhr'):
+            kw['xhr'] = True
+        if st.get('header'):
+            kw['header'] = st['header']
+        if st.get('accept'):
+            kw['accept'] = st['accept']
         if st.get('renderer'):
             kw['renderer'] = st['renderer']
         if st.get('dopt') is not None:
@@ -472,7 +485,16 @@ def _raw_table():
         'add_traverser': (['add_traverser#0'], lambda c: c.add_traverser(ResourceTreeTraverser, CtxB)),
         'add_resource_url_adapter': (['add_resource_url_adapter#0'], lambda c: c.add_resource_url_adapter(ResourceURL, CtxB)),
         'add_request_method_placeholder': (['add_request_method#0'], lambda c: c.add_request_method(None, name='ext9')),
+        'override_asset': (['override_asset#0'],
+                           lambda c: c.override_asset('harness.c08.assetpkg:a/', 'harness.c08.assetpkg:b/')),
+        'add_cache_buster': (['add_cache_buster#0'],
+                             lambda c: c.add_cache_buster('harness.c08.assetpkg:a/', _cache_buster())),
     }
+
+
+def _cache_buster():
+    from pyramid.static import QueryStringConstantCacheBuster
+    return QueryStringConstantCacheBuster('v1')
 
 
 class _Raw(dict):
@@ -491,6 +513,7 @@ RAW_SITES = {
     'add_permission': ['add_permission#0'], 'set_csrf_storage_policy': ['set_csrf_storage_policy#0'],
     'add_response_adapter': ['add_response_adapter#0'], 'add_traverser': ['add_traverser#0'],
     'add_resource_url_adapter': ['add_resource_url_adapter#0'], 'add_request_method_placeholder': ['add_request_method#0'],
+    'override_asset': ['override_asset#0'], 'add_cache_buster': ['add_cache_buster#0'],
 }
 
 
@@ -567,25 +590,32 @@ def build_variant(stmts, body):
                              'Deferred' if deferred else _disc_family(d)])
         state['n'] = len(acts)
 
-    def run_body(cfg, items):
+    def run_body(cfg, items, in_prefix=False):
         for it in items:
             if isinstance(it, int):
                 st = stmts[it]
                 mon.ctx = ('decl', st['id'])
                 try:
-                    declare(cfg, st)
+                    declare(cfg, st, in_prefix)
                 finally:
                     mon.ctx = None
                 wrap_new_actions(cfg, st)
+            elif it == 'commit':
+                cfg.commit()                  # a fresh ActionState follows
+                state['n'] = 0
             else:
                 state['inc'] += 1
                 sub = it['inc']
+                pfx = bool(it.get('prefix'))
 
-                def includeme(c, sub=sub):
-                    run_body(c, sub)
+                def includeme(c, sub=sub, pfx=pfx):
+                    run_body(c, sub, in_prefix or pfx)
                 includeme.__name__ = 'inc_%d' % state['inc']
                 includeme.__qualname__ = includeme.__name__
-                cfg.include(includeme)
+                if pfx:
+                    cfg.include(includeme, route_prefix=PREFIX)
+                else:
+                    cfg.include(includeme)
 
     try:
         run_body(config, body)
@@ -608,8 +638,10 @@ HEADERS = ('Content-Type', 'X-View', 'X-Tw', 'X-Sub', 'X-SubR', 'X-Root', 'X-Req
 def probe(app, p):
     """p = [method, path, query, user|None, token|None]"""
     Request = _P['Request']
-    method, path, query, user, token = p
+    method, path, query, user, token = p[:5]
     req = Request.blank(path + (('?' + query) if query else ''))
+    for h, v in (p[5] if len(p) > 5 else []):
+        req.headers[h] = v
     req.method = method
     if method == 'POST':
         req.body = b''
@@ -636,6 +668,11 @@ def triad(st):
     if kind == 'view':
         return 'view|%s|%s|%s' % (st.get('ctx'), st.get('name', ''), st.get('route'))
     return '%s|%s' % (kind, st.get('route'))
+
+
+def slotkey(st):
+    """views with accept= live in a per-media-type sublist of their multiview"""
+    return triad(st) + ('|' + st['accept'] if st.get('accept') else '')
 
 
 def registrations(b, stmts):
@@ -730,9 +767,9 @@ def registrations(b, stmts):
                 members += [derived.get(id(v), -1) for acc in f.accepts for (_, v, _) in f.media_views[acc]]
             else:
                 members = [derived.get(id(f), -1)]
-            members = [m for m in members if m != -1]
-            if members:
-                slots.setdefault('view:' + triad(stmts[members[0]]), []).extend(members)
+            for m in members:
+                if m != -1:
+                    slots.setdefault('view:' + slotkey(stmts[m]), []).append(m)
     for k, v in slots.items():
         # a view that is both a normal and an exception view is registered twice: keep one
         seen = []
